@@ -118,3 +118,7 @@ pub fn parse_openssl_25519_privkey(data: &[u8]) -> (r: Result<StaticSecret, ()>)
     ensures (data@.len() == 48 && data@.subrange(0, 16) == seq![48u8, 46u8, 2u8, 1u8, 0u8, 48u8, 5u8, 6u8, 3u8, 43u8, 101u8, 110u8, 4u8, 34u8, 4u8, 32u8])
         ==> (r is Ok && r->Ok_0.bytes() == data@.subrange(16, 48)),
 { unimplemented!() }
+
+/// Vec<K>::extend_from_slice(keys) for the key types (std: appends a clone of every element, in order; the clone of a key is that key)  [rewrite R14]
+#[verifier::external_body]
+pub fn vextend_keys<K>(v: &mut Vec<K>, other: &[K]) ensures final(v)@ == old(v)@ + other@ { unimplemented!() }
